@@ -283,12 +283,19 @@ pub fn intersect(src: &[Point; 2], clip: &Rect, dst: &mut [Point; 2]) -> bool {
         }
     }
 
+    // The Y values of `tmp` are already inside the clip. `sect_with_vertical` works on the unchopped
+    // `src` (and returns the average Y of `src` for a nearly vertical line), so pin its result to
+    // the chopped range, otherwise the X chop can move a point back out of the clip vertically.
+    let (y0, y1) = (tmp[0].y, tmp[1].y);
+
     if tmp[index0].x < clip.left() {
-        tmp[index0] = Point::from_xy(clip.left(), sect_with_vertical(src, clip.left()));
+        let y = pin_unsorted_f32(sect_with_vertical(src, clip.left()), y0, y1);
+        tmp[index0] = Point::from_xy(clip.left(), y);
     }
 
     if tmp[index1].x > clip.right() {
-        tmp[index1] = Point::from_xy(clip.right(), sect_with_vertical(src, clip.right()));
+        let y = pin_unsorted_f32(sect_with_vertical(src, clip.right()), y0, y1);
+        tmp[index1] = Point::from_xy(clip.right(), y);
     }
 
     dst.copy_from_slice(&tmp);
